@@ -294,7 +294,7 @@ def _table(rows, width, start_index, fill_mode, fill_value=-999, pad_front=False
 def ugrid(ny=2, nx=3, *, split=(), merge=(), start_index=0, fill='auto', transposed=False,
           tables=(), edge_dimension='auto', edge_values=True, coords_as='vars', face_coords=False, time=2, extra=True,
           jitter=0.0, two_name='Two', face_dimension_attr=True, edge_transposed=False, mesh=None, edge_order='first-seen', depth=0,
-          edge_face_missing_first=False, latitude_first=False):
+          edge_face_missing_first=False, latitude_first=False, edge_coords=False):
     """tables: subset of {'edge_node','face_edge','edge_face','face_face'} to supply.
     fill: 'auto' (int with _FillValue when ragged, none otherwise) | 'nan' | 'int_fill'."""
     node_x, node_y, faces = mesh if mesh is not None else quad_tri_mesh(ny, nx, split=split, merge=merge, jitter=jitter)
@@ -348,6 +348,13 @@ def ugrid(ny=2, nx=3, *, split=(), merge=(), start_index=0, fill='auto', transpo
         fy = numpy.array([numpy.mean(node_y[f]) for f in faces])
         ctgt['Mesh2_face_x'] = xarray.DataArray(fx, dims=['nMesh2_face'])
         ctgt['Mesh2_face_y'] = xarray.DataArray(fy, dims=['nMesh2_face'])
+    if edge_coords:
+        # characteristic edge positions (midpoints) named by the mesh variable - possibly by a mesh that defines no edge dimension at all
+        mesh_attrs['edge_coordinates'] = 'Mesh2_edge_x Mesh2_edge_y'
+        ex = numpy.array([(node_x[a] + node_x[b]) / 2 for a, b in edge_list])
+        ey = numpy.array([(node_y[a] + node_y[b]) / 2 for a, b in edge_list])
+        ctgt['Mesh2_edge_x'] = xarray.DataArray(ex, dims=['nMesh2_edge'])
+        ctgt['Mesh2_edge_y'] = xarray.DataArray(ey, dims=['nMesh2_edge'])
     if latitude_first:
         # the file lists latitude before longitude (and says so with CF attributes): first-listed = first coordinate everywhere
         mesh_attrs['node_coordinates'] = 'Mesh2_node_y Mesh2_node_x'
@@ -468,6 +475,8 @@ def expected_geometry_names(spec):
     t = set(spec.get('tables', ()))
     names += [n for k, n in (('edge_node', 'Mesh2_edge_nodes'), ('face_edge', 'Mesh2_face_edges'), ('edge_face', 'Mesh2_edge_faces'),
                              ('face_face', 'Mesh2_face_links')) if k in t]
+    if spec.get('edge_coords'):
+        names += ['Mesh2_edge_x', 'Mesh2_edge_y']
     if spec.get('face_coords'):
         names += ['Mesh2_face_x', 'Mesh2_face_y']
     return names
